@@ -45,6 +45,7 @@ type lgCluster struct {
 	commit bool // component 102: answers are kept and can be processed by the sender (commitment)
 	ans    []lgAns
 	hb     map[int]bool
+	snap   bool                    // component 103: takeSnapshot ops, the newest snapshot in the state dump
 	calls  map[[2]uint64]*evDriven // component 102: the replicateTo call in progress per (leader, follower)
 	out    map[[2]uint64]int       // ... and the request it waits for
 	futs   []*lgFut                // component 102: the Apply calls issued, in order
@@ -141,8 +142,10 @@ func (c *lgCluster) dropDeadCalls() {
 	}
 }
 
-func newLgCluster(extras []uint64, commit bool) *lgCluster {
-	c := &lgCluster{evCluster: newEvCluster(extras), commit: commit, calls: map[[2]uint64]*evDriven{}, out: map[[2]uint64]int{}}
+func newLgCluster(extras []uint64, commit bool) *lgCluster { return newLgClusterT(extras, commit, 0) }
+
+func newLgClusterT(extras []uint64, commit bool, trail uint64) *lgCluster {
+	c := &lgCluster{evCluster: newEvClusterT(extras, trail), commit: commit, snap: trail != 0, calls: map[[2]uint64]*evDriven{}, out: map[[2]uint64]int{}}
 	if commit {
 		c.driven = map[uint64]*evDriven{}
 	}
@@ -204,6 +207,13 @@ func (c *lgCluster) observe() []uint64 {
 				}
 			} else {
 				out = append(out, 0)
+			}
+			if c.snap {
+				var si, st uint64
+				if metas, _ := nd.snaps.List(); len(metas) > 0 {
+					si, st = metas[0].Index, metas[0].Term
+				}
+				out = append(out, si, st)
 			}
 		}
 	}
@@ -313,6 +323,20 @@ func (c *lgCluster) doRepl(op []uint64) bool {
 		if !c.afterVerdict(d) {
 			delete(c.calls, k)
 		}
+	case 11:
+		// takeSnapshot (the snapshot goroutine, asked by the user API): FSM snapshot, sink, compactLogs
+		if !c.snap {
+			return false
+		}
+		n := c.nodes[op[1]]
+		done := make(chan struct{})
+		go func() { n.r.Snapshot().Error(); close(done) }()
+		select {
+		case <-done:
+		case <-time.After(3 * time.Second):
+			c.lost = true
+			return false
+		}
 	case 14:
 		// the leader loop consumed commitCh: it has happened by the time the cluster is quiet
 		return c.commit
@@ -332,17 +356,24 @@ func (c *lgCluster) doRepl(op []uint64) bool {
 	return true
 }
 
-var lgOpLen = map[uint64]int{1: 2, 2: 3, 3: 3, 4: 6, 5: 2, 7: 3, 8: 5, 9: 3, 10: 2, 12: 2, 13: 3, 14: 2}
+var lgOpLen = map[uint64]int{1: 2, 2: 3, 3: 3, 4: 6, 5: 2, 7: 3, 8: 5, 9: 3, 10: 2, 11: 2, 12: 2, 13: 3, 14: 2}
 
 func c101Gen(r *rng, n int, steps int, commit bool) (in []uint64, obs []uint64, leaders int) {
+	return c101GenT(r, n, steps, commit, 0)
+}
+
+func c101GenT(r *rng, n int, steps int, commit bool, trail uint64) (in []uint64, obs []uint64, leaders int) {
 	extras := make([]uint64, n)
 	for i := range extras {
 		extras[i] = uint64(r.intn(3))
 	}
-	c := newLgCluster(extras, commit)
+	c := newLgClusterT(extras, commit, trail)
 	defer c.closeAll()
 	c.settle()
 	in = append([]uint64{uint64(n)}, extras...)
+	if trail != 0 {
+		in = append([]uint64{trail - 1}, in...)
+	}
 	emit := func(op []uint64) {
 		var ldr *evNode
 		var before uint64
@@ -414,6 +445,11 @@ func c101Gen(r *rng, n int, steps int, commit bool) (in []uint64, obs []uint64, 
 					emit(elect[r.intn(len(elect))])
 				}
 			}
+			continue
+		}
+		if trail != 0 && r.chance(1, 14) {
+			// a snapshot (and the compaction that follows it) at any server
+			emit([]uint64{11, uint64(1 + r.intn(n))})
 			continue
 		}
 		switch {
@@ -556,12 +592,22 @@ func c101Gen(r *rng, n int, steps int, commit bool) (in []uint64, obs []uint64, 
 }
 
 func c101Run(in0 []uint64, commit bool) (in []uint64, obs []uint64, leaders int) {
+	return c101RunT(in0, commit, 0)
+}
+
+func c101RunT(in0 []uint64, commit bool, trail uint64) (in []uint64, obs []uint64, leaders int) {
+	if trail != 0 {
+		in0 = in0[1:]
+	}
 	n := int(in0[0])
 	extras := in0[1 : 1+n]
-	c := newLgCluster(extras, commit)
+	c := newLgClusterT(extras, commit, trail)
 	defer c.closeAll()
 	c.settle()
 	in = append([]uint64{uint64(n)}, extras...)
+	if trail != 0 {
+		in = append([]uint64{trail - 1}, in...)
+	}
 	p := 1 + n
 	for p < len(in0) && !c.lost {
 		silent := in0[p] == 99
